@@ -422,6 +422,13 @@ def impl_kernel(case):
     raise ValueError(kind)
 
 
+def impl_any(case):
+    """one worker pool for all groups (import + JIT warm-up paid once per worker)"""
+    group, payload = case
+    return {"eye": impl_eye, "full": impl_full, "asarray": impl_asarray, "random": impl_random,
+            "kernel": impl_kernel}[group](payload)
+
+
 # =============================================================================== generators
 def dyadic(d):
     """a float as (m, e) with d = m * 2^e exactly; NaN -> class '< 0', +inf -> class '> 1'"""
@@ -464,6 +471,8 @@ def full_cases(tier, rng):
     srcs = ["ndarray", "coo", "gcxs", "dok"]
     for sh in [s for s in SHAPES if not isinstance(s, int)]:
         for src in srcs:
+            if src == "dok" and sh == ():
+                continue          # DOK.from_numpy(0-d) raises (conversion, C05): the source cannot be built
             for op in range(4, 8):
                 for sho in [None, (2, 2), (0, 3), ()]:
                     for fmt in [None] + FMTS:
@@ -512,14 +521,16 @@ def random_cases(tier, rng):
         for s in sh:
             size *= s
         for nnz in range(size + 1):
-            for sd in seeds:
+            ss = seeds if (size <= 12 or sh == (40,) or tier != "quick") else seeds[:12]
+            for sd in ss:
                 cases.append((list(sh), None, nnz, sd, next(fmt_cycle), next(fill_cycle), next(idx_cycle),
                               next(samp_cycle)))
     grid = [0.0, 0.01, 0.05, 0.1, 0.25, 0.29, 0.3, 0.5, 0.51, 0.7, 0.9, 0.95, 0.99, 1.0, 1e-300, 0.999999999999]
     grid += [rng.random() for _ in range(8 if tier == "quick" else 40)]
     for sh in shapes + [(30, 40), (7, 11, 13)]:
         for d in grid:
-            for sd in seeds[: (4 if tier == "quick" else 20)]:
+            big = sh in [(30, 40), (7, 11, 13)]
+            for sd in seeds[: ((1 if big else 4) if tier == "quick" else 20)]:
                 cases.append((list(sh), d, None, sd, next(fmt_cycle), next(fill_cycle), next(idx_cycle),
                               next(samp_cycle)))
     # larger arrays: every branch with large arguments
@@ -530,7 +541,7 @@ def random_cases(tier, rng):
         for nnz in sorted({0, 1, 2, 3, size // 11, size // 10, size // 10 + 1, size // 3, size // 2, size // 2 + 1,
                            size - size // 3, size - size // 10 - 1, size - size // 10, size - size // 11,
                            size - 3, size - 2, size - 1, size}):
-            for sd in seeds[: (3 if tier == "quick" else 12)]:
+            for sd in seeds[: (2 if tier == "quick" else 12)]:
                 cases.append((list(sh), None, nnz, sd, next(fmt_cycle), next(fill_cycle), None, next(samp_cycle)))
     # default density (0.01), no nnz
     for sh in [(5, 8), (30, 40), (1000,), ()]:
@@ -576,14 +587,14 @@ def kernel_cases(tier, rng):
         stream = [rng.choice(ext) if rng.random() < 0.3 else rng.random() for _ in range(L)]
         cases.append(("algA", "py", n, N, stream))
     for _ in range(nk):
-        N = rng.randrange(1, 3000)
+        N = rng.randrange(1, 400 if tier == "quick" else 3000)
         n = rng.randrange(1, N + 1)
         cases.append(("algA", "c", n, N, rng.randrange(1 << 30)))
     for _ in range(nk):
         N = rng.randrange(3, 80)
         n = rng.randrange(1, N)               # n = N never returns (qu1 = 0): not reachable from random()
         qu1 = N - n
-        L = rng.choice([3, 8, 40 * n + 200])
+        L = rng.choice([3, 8, 40 * n + 200, 40 * n + 200, 40 * n + 200, 40 * n + 200])
         stream = [rng.choice(ext) if rng.random() < 0.25 else rng.random() for _ in range(L)]
         if rng.random() < 0.6:
             # force the first candidate S just below qu1 (where Vprime > 1 and the second test matter)
@@ -612,13 +623,23 @@ def lit_dns(d):
     return vpair(vlist(d["shape"]), vlist(d["flat"]))
 
 
-def judge_tags(build, name, case_type, judge_fn, tag_fn, lits, chunk=400):
-    """[(index, code)] of non-zero verdicts and, when tag_fn is given, the model-derived tag of every case"""
+def judge_tags(build, name, case_type, judge_fn, tag_fn, lits, chunk=400, chunk_bytes=100_000):
+    """[(index, code)] of non-zero verdicts and, when tag_fn is given, the model-derived tag of every case.
+    Chunks are balanced by literal size (Coq's cost is dominated by parsing the numerals)."""
     header = ("From Coq Require Import ZArith List Bool.\nFrom Verif Require Import C19Judge Random Judge.\n"
               "Import ListNotations.\nOpen Scope Z_scope.\nSet Printing Width 1000000.\nSet Printing Depth 1000000.\n")
+    groups, cur, size = [], [], 0
+    for i, l in enumerate(lits):
+        if cur and (len(cur) >= chunk or size + len(l) > chunk_bytes):
+            groups.append(cur)
+            cur, size = [], 0
+        cur.append(i)
+        size += len(l)
+    if cur:
+        groups.append(cur)
     chunks = []
-    for k in range(0, len(lits), chunk):
-        body = (f"Definition cases : list ({case_type}) := [\n" + ";\n".join(lits[k:k + chunk]) +
+    for g in groups:
+        body = (f"Definition cases : list ({case_type}) := [\n" + ";\n".join(lits[i] for i in g) +
                 f"].\nEval vm_compute in (run_judge ({judge_fn}) cases).")
         if tag_fn:
             body += f"\nEval vm_compute in (run_tags ({tag_fn}) cases)."
@@ -630,7 +651,7 @@ def judge_tags(build, name, case_type, judge_fn, tag_fn, lits, chunk=400):
         if len(ev) != (2 if tag_fn else 1):
             raise vlib.CoqEvalError(f"unexpected Coq output for {name}_{k}: {out[-800:]}")
         for m in re.finditer(r"\(\s*(-?\d+)\s*,\s*(-?\d+)\s*\)", ev[0]):
-            res.append((k * chunk + int(m.group(1)), int(m.group(2))))
+            res.append((groups[k][int(m.group(1))], int(m.group(2))))
         if tag_fn:
             tags += [int(x) for x in re.findall(r"-?\d+", ev[1])]
     return res, tags
@@ -668,9 +689,18 @@ def campaign(build, tier, seed, report, budget=1):
         return r is None or "hang" in r or "crash" in r or ("exc" in r and "dense" not in r and "calls" not in r
                                                            and "out" not in r and "py" not in r)
 
+    # ---------------------------------------------------------------- all implementation runs, one pool
+    G = {"eye": eye_cases(tier), "full": full_cases(tier, rng), "asarray": asarray_cases(tier, rng),
+         "random": random_cases(tier, rng), "kernel": kernel_cases(tier, rng)}
+    flat_cases = [(g, c) for g in ("random", "kernel", "asarray", "full", "eye") for c in G[g]]
+    flat_res = vlib.run_impl("props.c19", "impl_any", flat_cases, workers=14, per_case_timeout=60.0)
+    R = {g: [] for g in G}
+    for (g, _c), r in zip(flat_cases, flat_res, strict=True):
+        R[g].append(r)
+    phase("implementation_runs")
+
     # ---------------------------------------------------------------- eye
-    cases = eye_cases(tier)
-    res = vlib.run_impl("props.c19", "impl_eye", cases, workers=12)
+    cases, res = G["eye"], R["eye"]
     lits, idx = [], []
     for i, (c, r) in enumerate(zip(cases, res, strict=True)):
         N, M, k, fmt, dt = c
@@ -700,8 +730,7 @@ def campaign(build, tier, seed, report, budget=1):
     sample_eye = dict(case=cases[len(cases) // 3], impl=res[len(cases) // 3])
 
     # ---------------------------------------------------------------- full / zeros / ones / empty (+_like)
-    cases = full_cases(tier, rng)
-    res = vlib.run_impl("props.c19", "impl_full", cases, workers=12)
+    cases, res = G["full"], R["full"]
     names = ["full", "zeros", "ones", "empty", "full_like", "zeros_like", "ones_like", "empty_like"]
     lits, idx = [], []
     for i, (c, r) in enumerate(zip(cases, res, strict=True)):
@@ -737,22 +766,30 @@ def campaign(build, tier, seed, report, budget=1):
     sample_full = dict(case=cases[len(cases) // 2], impl=res[len(cases) // 2])
 
     # ---------------------------------------------------------------- asarray
-    cases = asarray_cases(tier, rng)
-    res = vlib.run_impl("props.c19", "impl_asarray", cases, workers=12)
+    cases, res = G["asarray"], R["asarray"]
     lits, idx = [], []
     for i, (c, r) in enumerate(zip(cases, res, strict=True)):
         kind, sh, vals, fmt, dt = c
-        rp = (f"import sparse, numpy as np; a=np.array({vals}).reshape({tuple(sh)}); "
-              f"print(sparse.asarray({'a' if kind in ('ndarray',) else 'sparse.COO.from_numpy(a)'}, format='{fmt}'"
-              f"{'' if dt is None else ', dtype=np.' + dt}))")
+        oe = {"ndarray": "a", "list": "a.tolist()", "scalar": "int(a.reshape(-1)[0])",
+              "coo": "sparse.COO.from_numpy(a)", "gcxs": "sparse.GCXS.from_numpy(a)", "dok": "sparse.DOK.from_numpy(a)",
+              "scipy_csr": "scipy.sparse.csr_matrix(a)", "scipy_coo": "scipy.sparse.coo_matrix(a)",
+              "scipy_csc": "scipy.sparse.csc_matrix(a)"}[kind]
+        dts = "" if dt is None else f", dtype=np.{dt}"
+        rp = (f"import sparse, scipy.sparse, numpy as np; a=np.array({vals}, dtype='int64').reshape({tuple(sh)}); "
+              f"x=sparse.asarray({oe}, format='{fmt}'{dts}); print(type(x).__name__, x.dtype, '| numpy:', "
+              f"np.asarray(a{dts}).dtype)")
         if bad_result(r):
-            if fmt in ("csr", "csc") or len(sh) != 2:
-                pass
-            V.append(viol("asarray", "value", "raises_or_hangs", c, r, rp))
+            V.append(viol("asarray", "value",
+                          "asarray_0d_to_dok_raises" if (not sh and fmt == "dok" and kind in ("ndarray", "scalar"))
+                          else "raises_or_hangs", c, r, rp))
             continue
         exp_type = {"coo": "COO", "gcxs": "GCXS", "dok": "DOK", "csr": "CSR", "csc": "CSC"}[fmt]
         if r["type"] != exp_type:
-            V.append(viol("asarray", "value", "format_not_honoured", c, r, rp))
+            zero_size = 0 in sh
+            V.append(viol("asarray", "value",
+                          "asarray_zero_size_with_dtype_returns_coo" if zero_size and r["type"] == "COO" else
+                          "asarray_csr_csc_with_dtype_returns_gcxs" if fmt in ("csr", "csc") and r["type"] == "GCXS"
+                          else "format_not_honoured", c, r, rp, detail=f"requested {fmt}, got {r['type']}"))
         if r["dtype"] != r["np_dtype"]:
             sparse_src = kind in ("coo", "gcxs", "dok")
             V.append(viol("asarray", "value",
@@ -775,8 +812,7 @@ def campaign(build, tier, seed, report, budget=1):
     phase("asarray")
 
     # ---------------------------------------------------------------- random (API)
-    cases = random_cases(tier, rng)
-    res = vlib.run_impl("props.c19", "impl_random", cases, workers=12, per_case_timeout=60.0)
+    cases, res = G["random"], R["random"]
     lits, idx = [], []
     TAG = {(): 0, ("choice",): 1, ("choice", "reverse"): 21, ("algD",): 3, ("algA",): 4,
            ("algD", "reverse"): 23, ("algA", "reverse"): 24}
@@ -833,8 +869,8 @@ def campaign(build, tier, seed, report, budget=1):
             if len(n_samp) != 1:
                 V.append(viol("random", "value", "sampler_not_called_exactly_once", c, r, rp))
                 continue
-            sampled = list(range(1, n_samp[0] + 1)) if sampler == "arange" else [1] * n_samp[0]
-            outl = "(Some " + vpair(lit_raw(r["raw"]), vlist(sampled), vpair(vZ(otag), vZ(on), vZ(oN)),
+            outl = "(Some " + vpair(lit_raw(r["raw"]), vpair(vZ(n_samp[0]), vbool(sampler == "arange")),
+                                    vpair(vZ(otag), vZ(on), vZ(oN)),
                                     vbool(r["same"])) + ")"
             if r.get("nnz_attr") != len(r["raw"]["coords"]):
                 V.append(viol("random", "value", "nnz_attribute_differs_from_stored_count", c, r, rp))
@@ -843,7 +879,7 @@ def campaign(build, tier, seed, report, budget=1):
         idx.append(i)
         distinct.add(("random", tuple(sh), dens, nnz))
     out, tg = judge_tags(build, "c19_random", "random_case", "judge_random", "tag_random", lits)
-    CL = {1: "guards_disagree_with_generated_chain", 2: "stored_count_differs_from_request",
+    CL = {1: "rejects_admissible_or_accepts_inadmissible_request", 2: "stored_count_differs_from_request",
           3: "positions_not_canonical", 4: "shape_fill_or_data_differs", 5: None, 6: None,
           7: "same_seed_different_array"}
     for j, code in out:
@@ -866,8 +902,7 @@ def campaign(build, tier, seed, report, budget=1):
     sample_random = dict(case=cases[len(cases) // 2], impl=res[len(cases) // 2])
 
     # ---------------------------------------------------------------- kernels
-    cases = kernel_cases(tier, rng)
-    res = vlib.run_impl("props.c19", "impl_kernel", cases, workers=12, per_case_timeout=60.0)
+    cases, res = G["kernel"], R["kernel"]
     groups = {"reverse": ([], []), "algA": ([], []), "algD": ([], []), "prod": ([], [])}
     ktags = {}
     for i, (c, r) in enumerate(zip(cases, res, strict=True)):
@@ -932,6 +967,12 @@ def campaign(build, tier, seed, report, budget=1):
                           "reverse_not_the_complement" if code == 2 else None, c[:4], r,
                           f"# kernel case {c[:4]!r} (stream omitted)", detail=f"judge code {code}"))
     phase("kernels")
+    ktags.setdefault("algD/any/second_test_accepts", 0)
+    if ktags["algD/any/second_test_accepts"] == 0:
+        report["notes"].append(
+            "algD: the second acceptance test (y1 * exp(log(y2) / nmin1inv) <= N / (N - X)) was evaluated but never "
+            "came out true on any scripted stream; as coded (log(y2) is divided, not multiplied, by nmin1inv) it is the "
+            "complement of the first test up to rounding, so the model's b2 branch is exercised only by the theorems")
     tags["kernels"] = dict(sorted(ktags.items()))
     evaluations += len(cases)
 
